@@ -425,6 +425,20 @@ func c14custom(rep *vh.Report, seed uint64, idx int) {
 		}
 		tr.WaitDrained(time.Second)
 		c := fmt.Errorf("custom failure #%d", f)
+		if f%3 == 1 {
+			// the peer goes away cleanly (io.EOF) right after the last thing the channel's writer handled had failed (an item
+			// that cannot be encoded for the link; a failed transport write): the cause of the closure is still the EOF
+			c = io.EOF
+			if f%2 == 1 {
+				_ = node.WriteMessageAll(&message.MessageRaw{ID: 99999, Payload: []byte{1, 2, 3}})
+			} else {
+				tr.FailWriteAt(tr.WriteCalls()+1, errWrite, false)
+				_ = node.WriteMessageAll(&MessageVfUid{Uid: 77})
+				waitFor(func() bool { return tr.NWrites() > 0 && tr.WriteAt(tr.NWrites()-1).Failed }, func() int64 { return int64(tr.WriteCalls()) }, 200*time.Millisecond)
+			}
+			time.Sleep(2 * time.Millisecond)
+			rep.Count("clean_disconnects_after_a_failed_write", 1)
+		}
 		causes = append(causes, c)
 		tr.FeedError(c)
 		waitFor(func() bool { return life.count(false) > f }, life.progress, time.Second)
@@ -676,6 +690,12 @@ func c14idle(rep *vh.Report, seed uint64, idx int, kind string) {
 		}
 	}
 	// phase 2: silence: the channel must be closed with a timeout error, no earlier than T after its last byte
+	if midFrame := (kind == "tcp-server" && idx%2 == 0) || (kind == "tcp-client" && idx%2 == 1); !closedEarly && midFrame {
+		// ... and the silence begins in the middle of a frame: the peer sent the beginning of one and went quiet
+		w := uidFrame(0xABCDEF, 9, 2, false, nil, 0)
+		send(w[:1+idx/2%(len(w)-1)])
+		rep.Count("idle_runs_silence_begins_mid_frame", 1)
+	}
 	lastByte := time.Now()
 	if !closedEarly {
 		ok := waitFor(func() bool { return life.count(false) >= 1 }, func() int64 { return int64(time.Since(lastByte) / (4 * T)) }, 6*T)
